@@ -71,6 +71,80 @@ pub fn compare_interrupted(input: &[u8], from: Option<Fmt>, to: Fmt, every: u64,
     }
 }
 
+/// The same property at the command line: the same bytes as a file operand (memory-mapped), on a pipe, as a
+/// regular file on standard input at offset 0 and behind bytes someone else consumed, and through a FIFO
+/// operand. Status and stdout must not depend on which it was (the source format is named, so that the
+/// recorded slice-vs-reader findings, which are about detection and degenerate streams, stay out).
+pub fn cli_sources(seed: u64, idx: usize, acc: &mut Acc) {
+    use crate::procmon::{self, Run, Scratch, Status, StdinKind, StdoutKind};
+    let mut rng = Rng::derive(seed, 0xc02c, idx as u64);
+    let src = fmts::STREAMING[idx % 3];
+    let to = ALL[(idx / 3) % 4];
+    let mut feats = crate::spell::Feats::default();
+    let mut cl = crate::gen::Classes::default();
+    let o = GenOpts { max_depth: 3, max_width: 4, ..GenOpts::common() };
+    // sizes: small, around the 8 KiB / 64 KiB buffers, and above a megabyte
+    let n_docs = if to == Fmt::Toml { 1 } else { *rng.pick(&[1usize, 3, 40, 400, 8000]) };
+    let (bytes, _) = corpus::valid_stream(src, n_docs, &mut rng, &mut feats, &mut cl, &o);
+    if bytes.is_empty() || crate::read::read_stream(src, &bytes).map(|d| d.is_empty()).unwrap_or(true) {
+        return;
+    }
+    let sc = Scratch::new();
+    let name = format!("in.{}", src.name());
+    sc.file(&name, &bytes);
+    let bin = procmon::release_bin();
+    let base: Vec<String> = vec!["-f".into(), src.name().into(), "-t".into(), to.name().into()];
+    let with = |extra: &[&str]| -> Vec<String> { base.iter().cloned().chain(extra.iter().map(|s| s.to_string())).collect() };
+    let prefix: Vec<u8> = match rng.below(3) {
+        0 => b"{\"someone else\": \"read this\"}\n".to_vec(),
+        1 => vec![b'\n'; 8192],
+        _ => vec![b'#'; 5000],
+    };
+    let mut whole = prefix.clone();
+    whole.extend_from_slice(&bytes);
+    let run = |argv: Vec<String>, stdin: StdinKind| procmon::run(Run { bin: &bin, argv, cwd: sc.path(), stdin, stdout: StdoutKind::File, wall_secs: 120, cpu_secs: 60 });
+    let reference = run(with(&[&name]), StdinKind::Null);
+    sc.fifo("pipe.in");
+    let feeder = procmon::feed_fifo(sc.path().join("pipe.in"), bytes.clone());
+    let runs = vec![
+        ("pipe on standard input", run(with(&[]), StdinKind::Bytes(bytes.clone()))),
+        ("regular file on standard input, offset 0", run(with(&["-"]), StdinKind::FileAtOffset(bytes.clone(), 0))),
+        ("regular file on standard input, behind bytes already consumed", run(with(&[]), StdinKind::FileAtOffset(whole, prefix.len() as u64))),
+        ("FIFO operand", run(with(&["pipe.in"]), StdinKind::Null)),
+    ];
+    let _ = feeder;
+    acc.evals += 1;
+    acc.count("cli_source_comparisons");
+    acc.max("largest_cli_input_bytes", bytes.len() as u64);
+    if bytes.len() >= 1 << 20 {
+        acc.count("cli_source_comparisons_above_1_mib");
+    }
+    if matches!(reference.status, Status::Timeout | Status::SpawnError(_)) {
+        acc.inconclusive += 1;
+        return;
+    }
+    for (how, r) in runs {
+        if matches!(r.status, Status::Timeout | Status::SpawnError(_)) {
+            acc.inconclusive += 1;
+            continue;
+        }
+        if r.status != reference.status || r.stdout != reference.stdout {
+            // the recorded slice-vs-reader findings show at the command line too (file operand = slice)
+            let sl = run_slice(&bytes, Some(src), to);
+            let (rd, _) = run_reader(&bytes, &Sched::All, Some(src), to);
+            if let Some(id) = classify(&bytes, Some(src), to, &sl, &rd) {
+                if known::listed("C02", id) {
+                    acc.known(id, || format!("command line: input [{}] {}->{}: {how} vs file operand", preview(&bytes, 60), src.name(), to.name()));
+                    return;
+                }
+            }
+            let at = r.stdout.iter().zip(reference.stdout.iter()).position(|(a, b)| a != b).unwrap_or(r.stdout.len().min(reference.stdout.len()));
+            acc.violation(Violation { sig: format!("command line {}->{}: {} differs from the file operand", src.name(), to.name(), how), case: json!({"part": "cli_sources", "seed": seed, "index": idx}), observed: format!("{how}: status {}, {} bytes; file operand: status {}, {} bytes; first difference at byte {at}: [{}] vs [{}]; stderr [{}]", r.status.show(), r.stdout.len(), reference.status.show(), reference.stdout.len(), preview(&r.stdout[at.min(r.stdout.len())..], 60), preview(&reference.stdout[at.min(reference.stdout.len())..], 60), preview(&r.stderr, 120)), expected: "the same status and output whatever carries the bytes".into() });
+            return;
+        }
+    }
+}
+
 /// Classifies a disagreement as one of the recorded known findings, if it has
 /// exactly that finding's signature.
 fn classify(input: &[u8], from: Option<Fmt>, to: Fmt, s: &Outcome, r: &Outcome) -> Option<&'static str> {
@@ -374,9 +448,12 @@ pub fn run(ctx: &Ctx) -> i32 {
         }
     });
     acc.merge(seed_acc);
+    let n_cli = ctx.size(90, 1500);
+    let cli = crate::par::run(n_cli, 1, |i, acc| cli_sources(seed, i, acc));
+    acc.merge(cli);
     let rule = format!(
-        "{} mixed corpus inputs (valid single/multi-document streams of every format, mutants, splices, seeds, random bytes/tokens) x relevant source selections x 4 targets x schedules [all, one, fixed(n), 2 random, boundary cuts], plus EVERY token sequence of length 1..={} over each format's alphabet x [own format, detect] x 2 targets x [all, one], plus {} large valid streams (50-1500 documents, up to 2 MiB) under 7 schedules incl. fixed(8191/8192/8193), plus single TOML documents of 1 000 000 .. 2 MiB - 70 bytes (named and detected, 3 schedules), plus documents nested to half of, just below, at and just beyond each format's depth limit (arrays, maps, mixtures; MessagePack also with 16/32-bit headers and wide collections, and at 100..1000), plus every hand-written seed input (degenerate streams, rare syntax forms, used directives, CR / CRLF line breaks) x [own format, detect] x 4 targets x 4 schedules; each evaluation is one (slice run, reader run) pair; distinct non-trivial = distinct non-empty input byte strings",
-        n_mixed, max_tok, n_large
+        "{} mixed corpus inputs (valid single/multi-document streams of every format, mutants, splices, seeds, random bytes/tokens) x relevant source selections x 4 targets x schedules [all, one, fixed(n), 2 random, boundary cuts], plus EVERY token sequence of length 1..={} over each format's alphabet x [own format, detect] x 2 targets x [all, one], plus {} large valid streams (50-1500 documents, up to 2 MiB) under 7 schedules incl. fixed(8191/8192/8193), plus single TOML documents of 1 000 000 .. 2 MiB - 70 bytes (named and detected, 3 schedules), plus documents nested to half of, just below, at and just beyond each format's depth limit (arrays, maps, mixtures; MessagePack also with 16/32-bit headers and wide collections, and at 100..1000), plus every hand-written seed input (degenerate streams, rare syntax forms, used directives, CR / CRLF line breaks) x [own format, detect] x 4 targets x 4 schedules; plus {} command-line comparisons (the release binary given the same 1-8000 documents as a file operand, on a pipe, as a regular file on standard input at offset 0 and behind bytes already consumed, and through a FIFO; sizes to above 1 MiB); each evaluation is one (slice run, reader run) pair; distinct non-trivial = distinct non-empty input byte strings",
+        n_mixed, max_tok, n_large, n_cli
     );
     let mut extra = serde_json::Map::new();
     extra.insert("token_sequences_exhaustive_up_to_length".into(), json!(max_tok));
@@ -389,7 +466,7 @@ pub fn run(ctx: &Ctx) -> i32 {
             extra,
             exhaustive: false,
             min_distinct: 1000,
-            must_reach: vec![("INPUT_READER_BARE".into(), 100), ("INPUT_READER_CHAINED_PREFIX".into(), 100), ("INPUT_SLICE_FROM_READER_EOF".into(), 100), ("YAML_READER_PATH".into(), 100), ("JSON_READER_PATH".into(), 100), ("MSGPACK_READER_PATH".into(), 100)],
+            must_reach: vec![("INPUT_READER_BARE".into(), 100), ("INPUT_READER_CHAINED_PREFIX".into(), 100), ("INPUT_SLICE_FROM_READER_EOF".into(), 100), ("YAML_READER_PATH".into(), 100), ("JSON_READER_PATH".into(), 100), ("MSGPACK_READER_PATH".into(), 100), ("cli_source_comparisons".into(), 30), ("cli_source_comparisons_above_1_mib".into(), 2)],
         },
         acc,
     )
@@ -397,6 +474,17 @@ pub fn run(ctx: &Ctx) -> i32 {
 
 pub fn replay(v: &Value) -> i32 {
     let c = &v["case"];
+    if c["part"].as_str() == Some("cli_sources") {
+        let mut acc = Acc::default();
+        cli_sources(c["seed"].as_u64().unwrap_or(0), c["index"].as_u64().unwrap_or(0) as usize, &mut acc);
+        return if acc.vio_count > 0 {
+            println!("VIOLATION property=C02 replay=<this file> (reproduced): {}", acc.violations[0].observed);
+            1
+        } else {
+            println!("not reproduced");
+            0
+        };
+    }
     let (Some(input), Some(from), Some(to), Some(sched)) = (c["input_hex"].as_str().and_then(unhex), c["from"].as_str().and_then(fmts::parse_from), c["to"].as_str().and_then(Fmt::parse), c["schedule"].as_str().and_then(Sched::parse)) else {
         println!("bad replay case");
         return 2;
